@@ -382,13 +382,13 @@ def check(prog, rep):
         bound = 2 if "quadratic" in owner else 1
         rets = [n.value for n in walk_local(fn.node) if isinstance(n, ast.Return)]
         ok = any(isinstance(r, ast.BoolOp) and isinstance(r.op, ast.And) and "is not None" in src(r.values[0]) and re.fullmatch(rf"\w+ <= {bound}", src(r.values[1])) for r in rets)
-        rep.ob("R04.4", owner, ok, f"<=> degree is not None and degree <= {bound}" if ok else f"{owner} is not `deg is not None and deg <= {bound}`", loc=fn.loc, detail="threshold")
+        rep.pin("degree consumers", "R04.4", owner, ok, f"<=> degree is not None and degree <= {bound}" if ok else f"{owner} is not `deg is not None and deg <= {bound}`", loc=fn.loc, detail="threshold")
     deg = E.methods.get("degree")
     s = src(deg.node)
     ok = "self._degree = result if result is not None else -1" in s and "return None if self._degree == -1 else self._degree" in s
-    rep.ob("R04.4", "Expression.degree", ok, "per-node cache: -1 is written only for None and read back as None" if ok else "the per-node degree cache does not map None <-> -1 consistently", loc=deg.loc, detail="sentinel")
+    rep.pin("degree consumers", "R04.4", "Expression.degree", ok, "per-node cache: -1 is written only for None and read back as None" if ok else "the per-node degree cache does not map None <-> -1 consistently", loc=deg.loc, detail="sentinel")
     uses_switch = any(dotted(c.func) == "compute_degree" for c in calls(deg.node))
-    rep.ob("R04.4", "Expression.degree", uses_switch, "the cached value comes from compute_degree (depth switch)" if uses_switch else "the cached degree is not computed by compute_degree", loc=deg.loc, detail="source")
+    rep.pin("degree consumers", "R04.4", "Expression.degree", uses_switch, "the cached value comes from compute_degree (depth switch)" if uses_switch else "the cached degree is not computed by compute_degree", loc=deg.loc, detail="source")
     P = prog.cls("Problem")
     lin = P.methods.get("_is_linear_problem")
     if lin is None:
@@ -398,7 +398,7 @@ def check(prog, rep):
     con = any(isinstance(n, ast.For) and src(n.iter) == "self._constraints" and "if not is_linear(constraint.expr)" in src(n) and "return False" in src(n) for n in walk_local(lin.node))
     trues = [n for n in walk_local(lin.node) if isinstance(n, ast.Return) and isinstance(n.value, ast.Constant) and n.value.value is True]
     last_true = bool(trues) and all(t.lineno > max(n.lineno for n in walk_local(lin.node) if isinstance(n, ast.For)) for t in trues)
-    rep.ob("R04.4", "Problem._is_linear_problem", obj and con and last_true, "True only after the objective and every constraint passed is_linear" if obj and con and last_true else "the linearity verdict is not the conjunction over the objective and all constraints", loc=lin.loc, detail="conjunction")
+    rep.pin("degree consumers", "R04.4", "Problem._is_linear_problem", obj and con and last_true, "True only after the objective and every constraint passed is_linear" if obj and con and last_true else "the linearity verdict is not the conjunction over the objective and all constraints", loc=lin.loc, detail="conjunction")
     rep.expect_min("R04.1", 50)
     rep.expect_min("R04.2", 2)
     rep.expect_min("R04.3", 6)
